@@ -27,13 +27,14 @@ After(step) == NextStep(Index(step) + 1)
 
 Init == /\ pc = "stat_entry" /\ faults = 0 /\ excused = FALSE /\ fds = [g \in {} |-> 0]
         /\ existed \in BOOLEAN /\ cas \in BOOLEAN
-        /\ fs = [p \in {"target"} |-> IF existed THEN File(OLDC, OldMode) ELSE Absent]
+        /\ fs = [p \in {"target"} |-> IF existed THEN SFile(OLDC, OldMode, TRUE) ELSE Absent]
 
 Effect(step) ==      \* <<fs', fds'>> of a successful call
   CASE step = "mkstemp" -> Mkstemp(fs, fds, "h", "tmp1")
     [] step = "fchmod"  -> Fchmod(fs, fds, "h", OldMode)
     [] step = "write"   -> Write(fs, fds, "h", "NEW")
     [] step = "flush"   -> Flush(fs, fds, "h")
+    [] step = "fsync"   -> Fsync(fs, fds, "h")
     [] step = "close"   -> Close(fs, fds, "h")
     [] step = "rename"  -> Rename(fs, fds, "tmp1", "target")
     [] step = "c_unlink" -> Unlink(fs, fds, "tmp1")
@@ -78,6 +79,8 @@ Next == Step \/ Fault \/ Cleanup \/ Mismatch \/ Die
 
 OldState == IF existed THEN "OLD" ELSE "ABSENT"
 Atomic == Holds(fs, "target", OLDC, NEWC) \in {OldState, "NEW"}
+(* power loss instead of process death: at no point does the target name refer to data still in the page cache only *)
+DurableInstall == Durable(fs, "target") \/ Holds(fs, "target", OLDC, NEWC) = "TORN"    \* TORN is Atomic's business
 ErrorClean == pc = "ret_error" => /\ Holds(fs, "target", OLDC, NEWC) = OldState
                                   /\ (excused \/ {p \in TmpFiles(fs) : fs[p].k = "file"} = {})
 SuccessExact == pc = "ret_ok" => /\ Holds(fs, "target", OLDC, NEWC) = "NEW"
